@@ -48,6 +48,9 @@ def check_value(res: Result, sc, compiler, cc, X, semiring: str, tag: str, tol="
     Records a violation (value / shape / exception) and returns False on mismatch."""
     if r is None:
         r, a = reference(sc, compiler, X)
+    if not np.all(np.isfinite(a)):
+        res.count("skipped_nonfinite_reference")  # the valuation left float64 range: nothing to decide
+        return True
     out = call(evaluate, cc, X)
     if not out.ok:
         exc_violation(res, out, f"evaluating compiled circuit [{tag}] B={None if X is None else X.shape[0]}")
